@@ -195,7 +195,10 @@ def line_wrap_by_sentence(
         # Handle width <= 0 as "no wrapping"
         if width <= 0:
             # Collapse whitespace runs as wrapping does (words are split and rejoined).
-            return initial_indent + " ".join(text.split())
+            line = " ".join(text.split())
+            if is_markdown and markdown_first_line_is_rule([line]):
+                line = markdown_escape_first_word(line)
+            return initial_indent + line
 
         lines: list[str] = []
         first_line = True
